@@ -155,8 +155,11 @@ def is_relevant(node):
             if nodes.contains(node[2], lambda t: t in ['Int', 'Real']):
                 return True
         elif node.get_ident() in ['declare-fun', 'define-fun', 'define-sort']:
+            # parameter sorts (node[2]) and result sort (node[3])
             if len(node) < 4:
                 return False
             if nodes.contains(node[3], lambda t: t in ['Int', 'Real']):
+                return True
+            if nodes.contains(node[2], lambda t: t in ['Int', 'Real']):
                 return True
     return False
